@@ -36,6 +36,7 @@ LEAVES = ([("none",), ("bool", True), ("bool", False)]
           + [("uuid", U1), ("uuid", U2), ("point1", 3), ("point2", "1.5", "-2.0")])
 
 OBJ = ["Box", "SubBox", "SubSubBox", "Foreign", "ForeignSub"]
+NESTED_CLASS = "Shelf.Slot"  # a class that is not a module attribute: only in a few dedicated cases (open finding C18-F1)
 
 
 def build(c):
@@ -56,7 +57,9 @@ def build(c):
     if k == "list":
         return [build(x) for x in c[1:]]
     if k == "obj":
-        cls = getattr(M, c[1])
+        cls = M
+        for part in c[1].split("."):
+            cls = getattr(cls, part)
         if c[1] == "SubSubBox":
             return cls(payload=build(c[2]), extra=build(c[3]))
         return cls(build(c[2]))
@@ -112,6 +115,10 @@ def cases(tier, seed):
         all_cases.extend(new)
         prev_all = new
         prev_reps = reps(new, n, depth) + reps(level0, 6, depth)
+    for v in level0[:12]:
+        all_cases.append(("obj", NESTED_CLASS, v))
+    all_cases += [("list", ("obj", NESTED_CLASS, ("int", 1))), ("obj", "Box", ("obj", NESTED_CLASS, ("none",))),
+                  ("obj", NESTED_CLASS, ("obj", "SubBox", ("str", "a"))), ("list", ("int", 0), ("list", ("obj", NESTED_CLASS, ("uuid", U1))))]
     # de-duplicate while keeping order
     seen = set()
     out = []
@@ -207,12 +214,21 @@ def run_case(case):
 
 def finish(run):
     if run.exhaustive and not run.failures:
-        for k in ("depth:3", "top:obj:SubSubBox", "top:obj:Foreign", "top:obj:ForeignSub", "top:point2", "top:uuid"):
+        for k in ("depth:3", "top:obj:SubSubBox", "top:obj:Foreign", "top:obj:ForeignSub", "top:obj:Shelf.Slot", "top:point2", "top:uuid"):
             if not run.features.get(k):
                 raise HarnessError(f"vacuous: {k} never exercised")
 
 
+def mentions_nested_class(c):
+    return isinstance(c, tuple) and ((c[0] == "obj" and "." in c[1]) or any(mentions_nested_class(x) for x in c[1:]))
+
+
 def classify(case, failure):
+    # C18-F1: a serialisable class that is not a module attribute (class nested in a class)
+    if mentions_nested_class(case) and (
+            (failure.kind == "crash" and "ClassNotFoundError" in failure.detail and "'Slot'" in failure.detail)
+            or (failure.kind == "tag" and "Shelf.Slot" in failure.detail)):
+        return "C18/class-not-a-module-attribute"
     return None
 
 
